@@ -265,14 +265,16 @@ pub fn minimise(world: &dyn World, plan: &Plan, viol: &Violation, budget: u64) -
             _ => None,
         }
     };
+    // wall time is only used to give up shrinking (the unshrunk plan is already a valid replay)
+    let t_min = Instant::now();
     let mut progress = true;
-    while progress && execs < budget {
+    while progress && execs < budget && t_min.elapsed().as_secs() < 90 {
         progress = false;
         // 2. drop chunks of operations (ddmin)
         let mut chunk = (best.ops.len() / 2).max(1);
         while chunk >= 1 && execs < budget {
             let mut i = 0;
-            while i < best.ops.len() && execs < budget {
+            while i < best.ops.len() && execs < budget && t_min.elapsed().as_secs() < 90 {
                 let mut cand = best.clone();
                 let end = (i + chunk).min(cand.ops.len());
                 cand.ops.drain(i..end);
